@@ -19,6 +19,11 @@
 #include "lltdTlvOps.h"
 #include "lltdWire.h"
 
+/* Upper bound on recorded Probe/Train observations per interface between two Queries. */
+#ifndef LLTD_SEE_LIST_MAX
+#define LLTD_SEE_LIST_MAX 1024
+#endif
+
 typedef struct lltd_iface_state {
     void *iface_ctx;
     struct lltd_iface_state *next;
@@ -553,7 +558,8 @@ static void parseProbe(void *inFrame, lltd_iface_state *st, void *iface_ctx) {
         }
     }
 
-    if (found) {
+    if (found || st->see_list_count >= LLTD_SEE_LIST_MAX) {
+        /* duplicate, or the bounded record is full: a flood must not grow memory without limit */
         lltd_port_free(probe);
         return;
     }
